@@ -1612,6 +1612,12 @@ silent("c18-s-trace-record-from-bound-arguments-directly", "C18", OP,
 fire("c11-scatter-drops-reduced-batch-inputs-without-reducing", "C11", TENSOR_,
      "    if plain_vars:\n        source = source.reduce(op, plain_vars)\n        reduced_vars = reduced_vars - plain_vars\n", "", "R11.17", "eager_scatter_tensor")
 
+V.append(dict(id="c06-new-python-operator-op-without-typing-rule", prop="C06", kind="fire", expect_rule="R06.21", expect_in="shl",
+              edits=[("funsor/ops/builtin.py", "lshift = BinaryOp.make(operator.lshift)\n", "lshift = BinaryOp.make(operator.lshift)\nshl = BinaryOp.make(operator.lshift)\n"),
+                     ("funsor/ops/builtin.py", '    "lshift",\n', '    "lshift",\n    "shl",\n')]))
+silent("c06-s-sub-gets-a-typing-rule-of-its-own", "C06", "funsor/domains.py", "<<EOF>>",
+       "\n\n@find_domain.register(ops.SubOp)\ndef _find_domain_sub(op, lhs, rhs):\n    if lhs.dtype == \"real\" and rhs.dtype == \"real\":\n        return Array[\"real\", broadcast_shape(lhs.shape, rhs.shape)]\n    raise NotImplementedError(\"TODO\")\n")
+
 # ===== derived variants: must stay at the END of this file (they enumerate every rename() variant above) =====
 # `if c: A else: B` -> `if not c: B else: A` in the anchor functions (behaviour-preserving)
 def invert(prop, file, qual):
